@@ -37,9 +37,8 @@ macro_rules
 
 theorem nr_cancelInner (s : State) (now : Nat) : (cancelInner s now).recvState ≠ .ReceiveData := by
   simp only [cancelInner, recvState_emit]
-  split
-  · simp [prepareFinished]
-  · simp only [recvState_shutdown]; split <;> simp [prepareFinished]
+  repeat' split
+  all_goals simp [prepareFinished, shutdown]
 
 theorem nr_dispatchFault {s : State} (h : NR s) (c : Condition) (now : Nat) :
     (dispatchFault s c now).1.recvState ≠ .ReceiveData := by
